@@ -372,6 +372,119 @@ theorem shape_PrecertChainEntry (v : Val) (x : Bytes) (h : enc xPrecertChainEntr
   obtain ⟨xs, rfl⟩ := encListWith_shape xASN1Cert asn1CertVal shape_ASN1Cert ws body hb
   exact ⟨⟨p, xs⟩, rfl⟩
 
+/-- the repository's extension: an entry of type 0x8000 carrying a `JSONDataEntry`, which RFC 6962 does not have -/
+def IsJsonTE (v : Val) : Prop :=
+  ∃ ts d ext, v = .struct [.num ts, .num 32768, .absent, .absent, .struct [.bytes d], .bytes ext]
+
+/-- Inverting the encoder on `LogEntryType entry_type; select(entry_type) {…}`: the four values are an RFC entry, or the JSON
+extension, or no variant was chosen (which the struct's final "unhandled value for selector" test then refuses). -/
+theorem shape_entry (env : Env) (men tak : List String) (rest : Fields) (vs : List Val) (x : Bytes)
+    (hm : tak.contains "EntryType" = false) (h : encFields env men tak (xEntryFields rest) vs = .ok x) :
+    ∃ et v2 v3 v4 tl y, vs = .num et :: v2 :: v3 :: v4 :: tl ∧
+      ((∃ e, [Val.num et, v2, v3, v4] = signedEntryVals e ∧
+          encFields (("EntryType", et) :: env) ("EntryType" :: "EntryType" :: "EntryType" :: men) ("EntryType" :: tak) rest tl = .ok y) ∨
+       (et = 32768 ∧ v2 = .absent ∧ v3 = .absent ∧ (∃ d, v4 = .struct [.bytes d]) ∧
+          encFields (("EntryType", et) :: env) ("EntryType" :: "EntryType" :: "EntryType" :: men) ("EntryType" :: tak) rest tl = .ok y) ∨
+       (encFields (("EntryType", et) :: env) ("EntryType" :: "EntryType" :: "EntryType" :: men) tak rest tl = .ok y)) := by
+  unfold xEntryFields at h
+  obtain ⟨v1, vs1, a1, b1, rfl, h1, g1⟩ := encFields_plain_inv _ _ _ _ _ _ _ _ h
+  obtain ⟨et, rfl⟩ := enc_enum_inv _ _ _ h1
+  have henv : envPush env "EntryType" (.enum i2) (.num et) = ("EntryType", et) :: env := rfl
+  rw [henv] at g1
+  obtain ⟨v2, vs2, c2, rfl, hl2, g2⟩ := encFields_variant_inv _ _ _ _ _ _ _ _ _ _ g1
+  have hc2 : c2 = et := by simpa [List.lookup] using hl2.symm
+  subst hc2
+  rcases g2 with ⟨hne0, hv2, g3⟩ | ⟨he0, a0, b0, ha0, g3⟩
+  · -- not an X.509 entry
+    subst hv2
+    obtain ⟨v3, vs3, c3, rfl, hl3, g4⟩ := encFields_variant_inv _ _ _ _ _ _ _ _ _ _ g3
+    have hc3 : c3 = c2 := by simpa [List.lookup] using hl3.symm
+    subst hc3
+    rcases g4 with ⟨hne1, hv3, g5⟩ | ⟨he1, a1', b1', ha1, g5⟩
+    · subst hv3
+      obtain ⟨v4, vs4, c4, rfl, hl4, g6⟩ := encFields_variant_inv _ _ _ _ _ _ _ _ _ _ g5
+      have hc4 : c4 = c3 := by simpa [List.lookup] using hl4.symm
+      subst hc4
+      rcases g6 with ⟨_, hv4, g7⟩ | ⟨hej, aj, bj, haj, g7⟩
+      · subst hv4
+        exact ⟨c4, _, _, _, vs4, _, rfl, Or.inr (Or.inr g7)⟩
+      · obtain ⟨ws, rfl, hj⟩ := enc_struct_inv _ _ _ haj
+        obtain ⟨w1, ws1, _, _, rfl, gj, hj2⟩ := encFields_plain_inv _ _ _ _ _ _ _ _ hj
+        obtain ⟨rfl, _⟩ := encFields_nil_inv _ _ _ _ _ hj2
+        obtain ⟨d, rfl⟩ := enc_bytes_inv _ _ _ gj
+        exact ⟨c4, _, _, _, vs4, bj, rfl, Or.inr (Or.inl ⟨hej, rfl, rfl, ⟨d, rfl⟩, g7⟩)⟩
+    · obtain ⟨p, rfl⟩ := shape_PreCert _ _ ha1
+      obtain ⟨v4, vs4, c4, rfl, hl4, g6⟩ := encFields_variant_inv _ _ _ _ _ _ _ _ _ _ g5
+      have hc4 : c4 = c3 := by simpa [List.lookup] using hl4.symm
+      subst hc4
+      subst he1
+      rcases g6 with ⟨_, hv4, g7⟩ | ⟨hej, _⟩
+      · subst hv4
+        exact ⟨1, _, _, _, vs4, b1', rfl, Or.inl ⟨.precert p, rfl, g7⟩⟩
+      · cases hej
+  · obtain ⟨c, rfl⟩ := shape_ASN1Cert _ _ ha0
+    subst he0
+    obtain ⟨v3, vs3, c3, rfl, hl3, g4⟩ := encFields_variant_inv _ _ _ _ _ _ _ _ _ _ g3
+    have hc3 : c3 = 0 := by simpa [List.lookup] using hl3.symm
+    subst hc3
+    rcases g4 with ⟨_, hv3, g5⟩ | ⟨he1, _⟩
+    · subst hv3
+      obtain ⟨v4, vs4, c4, rfl, hl4, g6⟩ := encFields_variant_inv _ _ _ _ _ _ _ _ _ _ g5
+      have hc4 : c4 = 0 := by simpa [List.lookup] using hl4.symm
+      subst hc4
+      rcases g6 with ⟨_, hv4, g7⟩ | ⟨hej, _⟩
+      · subst hv4
+        exact ⟨0, _, _, _, vs4, b0, rfl, Or.inl ⟨.x509 c, rfl, g7⟩⟩
+      · cases hej
+    · cases he1
+
+theorem shape_TimestampedEntry (v : Val) (x : Bytes) (h : enc xTimestampedEntry v = .ok x) : (∃ t, v = teVal t) ∨ IsJsonTE v := by
+  obtain ⟨vs, rfl, h⟩ := enc_struct_inv _ _ _ h
+  obtain ⟨v1, vs1, _, _, rfl, h1, h⟩ := encFields_plain_inv _ _ _ _ _ _ _ _ h
+  obtain ⟨ts, rfl⟩ := enc_uint_inv _ _ _ h1
+  obtain ⟨et, v2, v3, v4, tl, y, rfl, hcase⟩ := shape_entry _ _ _ _ _ _ (by rfl) h
+  have tail : ∀ env men tak z, encFields env men tak (.plain "Extensions" (.bytes iExt) .nil) tl = .ok z →
+      (∃ ext, tl = [.bytes ext]) ∧ allTaken men tak = true := by
+    intro env men tak z hz
+    obtain ⟨w, ws, _, _, rfl, hw, hz2⟩ := encFields_plain_inv _ _ _ _ _ _ _ _ hz
+    obtain ⟨rfl, ht⟩ := encFields_nil_inv _ _ _ _ _ hz2
+    obtain ⟨ext, rfl⟩ := enc_bytes_inv _ _ _ hw
+    exact ⟨⟨ext, rfl⟩, ht⟩
+  rcases hcase with ⟨e, he, hr⟩ | ⟨rfl, rfl, rfl, ⟨d, rfl⟩, hr⟩ | hr
+  · obtain ⟨⟨ext, rfl⟩, _⟩ := tail _ _ _ _ hr
+    left
+    refine ⟨⟨ts, e, ext⟩, ?_⟩
+    simp only [teVal, ← he]
+    rfl
+  · obtain ⟨⟨ext, rfl⟩, _⟩ := tail _ _ _ _ hr
+    right
+    exact ⟨ts, d, ext, rfl⟩
+  · obtain ⟨_, ht⟩ := tail _ _ _ _ hr
+    simp [allTaken] at ht
+
+/-- Any value `tls.Marshal` accepts for `ct.MerkleTreeLeaf` has leaf type 0 and is an RFC leaf or carries the JSON extension;
+in particular an unknown leaf type is refused. -/
+theorem shape_MerkleTreeLeaf (v : Val) (x : Bytes) (h : enc xMerkleTreeLeaf v = .ok x) :
+    (∃ l, v = leafVal l) ∨ (∃ ver te, v = .struct [.num ver, .num 0, te] ∧ IsJsonTE te) := by
+  obtain ⟨vs, rfl, h⟩ := enc_struct_inv _ _ _ h
+  obtain ⟨v1, vs1, _, _, rfl, h1, h⟩ := encFields_plain_inv _ _ _ _ _ _ _ _ h
+  obtain ⟨ver, rfl⟩ := enc_enum_inv _ _ _ h1
+  obtain ⟨v2, vs2, _, _, rfl, h2, h⟩ := encFields_plain_inv _ _ _ _ _ _ _ _ h
+  obtain ⟨lt, rfl⟩ := enc_enum_inv _ _ _ h2
+  have henv : envPush (envPush [] "Version" (.enum i1) (.num ver)) "LeafType" (.enum i1) (.num lt) = [("LeafType", lt), ("Version", ver)] := rfl
+  rw [henv] at h
+  obtain ⟨v3, vs3, c3, rfl, hl3, g⟩ := encFields_variant_inv _ _ _ _ _ _ _ _ _ _ h
+  have hc3 : c3 = lt := by simpa [List.lookup] using hl3.symm
+  subst hc3
+  rcases g with ⟨_, rfl, g⟩ | ⟨he, a, b, ha, g⟩
+  · obtain ⟨rfl, ht⟩ := encFields_nil_inv _ _ _ _ _ g
+    simp [allTaken] at ht
+  · subst he
+    obtain ⟨rfl, _⟩ := encFields_nil_inv _ _ _ _ _ g
+    rcases shape_TimestampedEntry _ _ ha with ⟨t, rfl⟩ | hj
+    · left; exact ⟨⟨ver, t⟩, rfl⟩
+    · right; exact ⟨ver, v3, rfl, hj⟩
+
 theorem shape_SCTList (m : Nat) (v : Val) (x : Bytes) (h : enc (xSCTList m) v = .ok x) : ∃ l, v = sctListVal l := by
   obtain ⟨vs, rfl, h⟩ := enc_struct_inv _ _ _ h
   obtain ⟨v1, _, _, _, rfl, h1, h⟩ := encFields_plain_inv _ _ _ _ _ _ _ _ h
